@@ -76,6 +76,17 @@ func decodesOwnBytes(info *types.Info, fd *ast.FuncDecl, call *ast.CallExpr) boo
 }
 
 func errException(caller, callee string) (string, bool) {
+	if r, ok := errException1(caller, callee); ok {
+		return r, true
+	}
+	// the exception stated for a function holds for the unexported helpers only it calls (owners.go)
+	if o := ownerOrSelf(caller); o != caller {
+		return errException1(o, callee)
+	}
+	return "", false
+}
+
+func errException1(caller, callee string) (string, bool) {
 	short := caller
 	if i := strings.LastIndex(caller, "."); i >= 0 {
 		short = caller[i+1:]
